@@ -107,6 +107,23 @@ example : (run (init {}) [.set [1] [2], .flush true 0 { res := .ok, applied := 0
     (run (init {}) [.set [1] [2], .flush true 0 { res := .ok, applied := 0 }, .set [1] [3],
       .flush true 0 { res := .ok, applied := 0 }, .flushWait { res := .ok, applied := 0 }]).flushing = none := by decide
 
+/-! ## thresholds: the mutable buffer is bounded -/
+
+/-- memory accounting (sizes are natural numbers: never negative).  For every state and every observed size `mem` of the
+    mutable buffer: `Flush(false)` declines (returns (false, nil)) only while `mem` is below the minimum or below the
+    force threshold — at or above both it always flushes, even with a flush in flight (it then waits for it) — and a
+    `Flush` that flushes leaves an empty mutable buffer.  So after every `Flush` call that returns without error the
+    mutable buffer is empty or smaller than max(MinFlushMemSize, ForceFlushMemSizeThreshold): a caller that calls
+    `Flush(false)` after each batch of writes never holds more than that threshold plus one batch. -/
+theorem mutable_buffer_bounded (s : PState) (force : Bool) (mem : Nat) (late : Completion) :
+    ((doFlush s force mem late).2 = .notFlushed → mem < s.cfg.minSize ∨ mem < s.cfg.forceSize) ∧
+    (s.cfg.minSize ≤ mem → s.cfg.forceSize ≤ mem → (doFlush s force mem late).2 ≠ .notFlushed) ∧
+    (∀ g b rpc, (doFlush s force mem late).2 = .flushed g b rpc → (doFlush s force mem late).1.mbuf = []) := by
+  refine ⟨fun h => needFlush_false (doFlush_notFlushed h).2, ?_, fun g b rpc h => doFlush_flushed_empties h⟩
+  intro h1 h2 h
+  have := (doFlush_notFlushed h).2
+  rw [needFlush_above h1 h2] at this; cases this
+
 /-! ## flush errors -/
 
 /-- a flush error is never lost: while the failure of a flush function has not been returned to the caller, Commit
@@ -315,6 +332,41 @@ theorem resolved_regions_cover_flushed (splits : List Bytes) (bs : List (List By
 /-- the former counter-examples: a single flushed key, and a greatest key that is the start key of its region -/
 example : covered (runOnRange [] (boundsOf [[[0x61]]]).1 (boundsOf [[[0x61]]]).2) [0x61] = true := by decide
 example : covered (runOnRange [[0x62], [0x6d]] (boundsOf [[[0x61], [0x63], [0x6d]]]).1 (boundsOf [[[0x61], [0x63], [0x6d]]]).2) [0x6d] = true := by
+  decide
+
+/-- the same for WHOLE op sequences of the buffer with the callback of InitPipelinedMemDB (any thresholds, flush timings,
+    failures, staging): every key the callback has sent to the store in a Flush request (`lockKeys`) lies in the
+    half-open range [pipelinedStart, pipelinedEnd) the transaction holds at that moment — hence in the range commit,
+    rollback or the cleanup after a failed commit hands to the range task.  Assumption: written keys are non-empty. -/
+theorem machine_range_covers_flushed (cfg : Cfg) (ops : List Op) (hok : ∀ op ∈ ops, op.keyOk = true) (k : Bytes)
+    (hk : k ∈ (run (init cfg) ops).lockKeys) :
+    inRange (run (init cfg) ops).pStart (run (init cfg) ops).pEnd k = true := by
+  have h := inv5_run (init cfg) ops hok (inv5_init cfg)
+  rcases h.bounds with ⟨h0, _⟩ | ⟨_, g, _, hpe, h3⟩
+  · rw [h0] at hk; cases hk
+  · obtain ⟨h1, h2⟩ := h3 k hk
+    simp only at hpe h1
+    unfold inRange
+    rw [hpe, h1, le_lt_trans h2 (lt_nextKey g)]; rfl
+
+/-- … and, for every region layout, in a region the range task visits -/
+theorem machine_regions_cover_flushed (cfg : Cfg) (ops : List Op) (hok : ∀ op ∈ ops, op.keyOk = true)
+    (splits : List Bytes) (k : Bytes) (hk : k ∈ (run (init cfg) ops).lockKeys) :
+    covered (runOnRange splits (run (init cfg) ops).pStart (run (init cfg) ops).pEnd) k = true := by
+  have h := inv5_run (init cfg) ops hok (inv5_init cfg)
+  rcases h.bounds with ⟨h0, _⟩ | ⟨_, g, _, hpe, h3⟩
+  · rw [h0] at hk; cases hk
+  · obtain ⟨h1, h2⟩ := h3 k hk
+    simp only at hpe h1
+    have hklt : Bytes.lt k (run (init cfg) ops).pEnd = true := by rw [hpe]; exact le_lt_trans h2 (lt_nextKey g)
+    have hlt := le_lt_trans h1 hklt
+    have hnonempty : (run (init cfg) ops).pEnd.isEmpty = false := by rw [hpe]; exact nextKey_isEmpty g
+    unfold runOnRange
+    simp only [hnonempty, Bool.false_eq_true, if_false, hlt, Bool.not_true]
+    exact tasks_cover splits [] _ _ k (nil_le _) h1 (le_iff.mpr (Or.inl hklt)) (Or.inl hklt)
+
+example : (∀ op ∈ [Op.set [0x61] [1], .flush true 0 { res := .ok, applied := 0 }], op.keyOk = true) ∧
+    [0x61] ∈ (run (init { layer := true }) [.set [0x61] [1], .flush true 0 { res := .ok, applied := 0 }]).lockKeys := by
   decide
 
 /-! ## at the store: commit or rollback drives every flushed lock to the outcome of the primary -/
